@@ -1,6 +1,7 @@
 package gosym
 
 import (
+	"sync/atomic"
 	"bufio"
 	"bytes"
 	"encoding/json"
@@ -336,6 +337,7 @@ func collect(res *HarnessResult, in *Interp, mu *sync.Mutex) {
 func runOne(l *Loaded, h *HarnessInfo, opts CheckOpts, known []KnownFinding) *HarnessResult {
 	t0 := time.Now()
 	cfg := Config{Unwind: h.Unwind, UnwindFn: h.UnwindFn, MaxPaths: h.MaxPaths, Known: known, Verbose: opts.Verbose, SolverName: h.Solver, TimeoutMs: h.Timeout, Logic: h.Logic}
+	cfg.ViolAt = new(int64)
 	if mp, err := strconv.Atoi(os.Getenv("VERIF_MAXPATHS")); err == nil && mp > 0 {
 		cfg.MaxPaths = mp
 	}
@@ -383,6 +385,13 @@ func runOne(l *Loaded, h *HarnessInfo, opts CheckOpts, known []KnownFinding) *Ha
 					wcfg.Transcript = ""
 					if i == 0 {
 						wcfg.Transcript = filepath.Join(OutRoot, "out", "smt", h.Name+".w0.smt2")
+					}
+					if v := atomic.LoadInt64(cfg.ViolAt); v != 0 && time.Since(time.Unix(0, v)) > violGrace {
+						<-workSlots
+						mu.Lock()
+						res.Inconclusive = append(res.Inconclusive, "exploration cut short 45 s after the first violation")
+						mu.Unlock()
+						continue
 					}
 					in := NewInterp(l.Prog, wcfg)
 					for _, c := range items[i] {
